@@ -180,7 +180,109 @@ func TestB2C20Prefixes(t *testing.T) {
 						t.Errorf("B2-FAIL object-value %s prefix=%d ref=%v want=%s got=%s err=%v", doc.desc, n, g.ref, AsString(want), AsString(got), err)
 					}
 				}
+				for _, st := range doc.streams {
+					if st.ref != g.ref || len(st.filters) != 0 || (n-g.end)%7 != 0 {
+						continue
+					}
+					// an unfiltered stream: the stored bytes are the data (read twice: the second
+					// read must not depend on state left by the first)
+					for round := 0; round < 2; round++ {
+						got, err := fi.Read(o)
+						stm, ok := got.(*Stream)
+						if err != nil || !ok {
+							t.Errorf("B2-FAIL stream-value %s prefix=%d ref=%v round=%d: %v %v", doc.desc, n, g.ref, round, got, err)
+							break
+						}
+						raw, err := io.ReadAll(stm.NewReader())
+						if err != nil || !bytes.Equal(raw, st.data) {
+							t.Errorf("B2-FAIL stream-value %s prefix=%d ref=%v round=%d: %d bytes, want %d (%v)", doc.desc, n, g.ref, round, len(raw), len(st.data), err)
+							break
+						}
+					}
+				}
 			}
+		}
+	}
+	// dedicated case: the length object of a stream lies beyond the truncation point and the
+	// data quotes the keyword "endstream" at the start of a line
+	{
+		cases++
+		var buf bytes.Buffer
+		w, _ := NewWriter(&buf, V1_7, nil)
+		a := w.Alloc()
+		w.GetMeta().Catalog.Pages = a
+		w.Put(a, Dict{"Type": Name("Pages"), "Kids": Array{}, "Count": Integer(0)})
+		ref := w.Alloc()
+		data := append(bytes.Repeat([]byte("0 0 m 100 100 l S % filler line\n"), 40), []byte("(the keyword)\nendstream\n% is quoted above\nQ\n")...)
+		sw, _ := w.OpenStream(ref, Dict{})
+		sw.Write(data)
+		sw.Close()
+		w.Close()
+		all := buf.Bytes()
+		// with the length object available (complete file, and xref section overwritten) the
+		// stream must be read exactly, on every read
+		damaged := append([]byte{}, all...)
+		if x := bytes.LastIndex(damaged, []byte("xref")); x > 0 {
+			for k := x; k < len(damaged) && k < x+40; k++ {
+				damaged[k] = ' '
+			}
+		}
+		for vi, variant := range [][]byte{all, damaged} {
+			cases++
+			fi, err := SequentialScan(bytes.NewReader(variant), int64(len(variant)))
+			if err != nil {
+				t.Errorf("B2-FAIL scan-fails quoted-keyword document variant=%d: %v", vi, err)
+				continue
+			}
+			found := false
+			for _, sec := range fi.Sections {
+				for _, o := range sec.Objects {
+					if o.Reference != ref {
+						continue
+					}
+					found = true
+					for round := 0; round < 3; round++ {
+						got, err := fi.Read(o)
+						stm, isStm := got.(*Stream)
+						if err != nil || !isStm || o.Broken {
+							t.Errorf("B2-FAIL stream-value quoted-keyword document variant=%d round=%d: broken=%v %v", vi, round, o.Broken, err)
+							break
+						}
+						raw, _ := io.ReadAll(stm.NewReader())
+						if !bytes.Equal(raw, data) {
+							t.Errorf("B2-FAIL stream-value quoted-keyword document variant=%d round=%d: %d bytes, want %d", vi, round, len(raw), len(data))
+							break
+						}
+					}
+				}
+			}
+			if !found {
+				t.Errorf("B2-FAIL object-lost quoted-keyword document variant=%d", vi)
+			}
+		}
+		if i := bytes.Index(all, []byte("endstream\nendobj")); i > 0 {
+			n := i + len("endstream\nendobj") + 1
+			fi, err := SequentialScan(bytes.NewReader(all[:n]), int64(n))
+			ok := false
+			if err == nil {
+				for _, sec := range fi.Sections {
+					for _, o := range sec.Objects {
+						if o.Reference == ref && !o.Broken {
+							if got, err := fi.Read(o); err == nil {
+								if stm, isStm := got.(*Stream); isStm {
+									raw, _ := io.ReadAll(stm.NewReader())
+									ok = bytes.Equal(raw, data)
+								}
+							}
+						}
+					}
+				}
+			}
+			if !ok {
+				t.Errorf("B2-FAIL quoted-endstream-length-unavailable a %d-byte stream with an indirect /Length is truncated after its endobj (before the length object); its data quotes the keyword at the start of a line: the object is not recovered (%v)", len(data), err)
+			}
+		} else {
+			t.Errorf("B2-FAIL harness: dedicated document has no stream")
 		}
 	}
 	t.Logf("B2-CASES %d", cases)
